@@ -206,3 +206,31 @@ CHECKS = [
 
 NOT_APPLICABLE = []  # every property is decided by bounded exhaustive exploration (DESIGN.md section 6)
 assert sorted(c["property_id"] for c in CHECKS) == ["C%02d" % i for i in range(1, 20)]
+
+# Families added in later sessions (the exact alphabets are in each check's RULE string and in its evidence file).
+_HIST = (" Call histories: ordered pairs of API calls in ONE process over trees that share names (revisions of a nested definition that name, version and size "
+         "cannot tell apart, the same fault in different files, other flags, minor versions spread over calls, a shared lookup-list object; in another directory and "
+         "in the same directory edited in place) - every call must give what it gives as the only call under names no earlier call has seen.")
+_EXTRA = {
+    "C01": " Also: binary nodes with both operands composed, operands that differ as sets but agree in min / max / residues mod 32, sets handed out by the type model and offsets over colliding base sets, every divisor list asked in ascending and descending order.",
+    "C02": " Also: sequences of types over members the approximate length-set equality cannot tell apart, same-named distinct types, lengths beyond 2**53 bits.",
+    "C03": " Also: bare '#' lines, same-named constants across service sections." + _HIST,
+    "C04": " Also: identifiers as operands (per schema section, services re-declaring names, foreign constants), canonically equivalent strings, sinks that must not floor / re-encode their operand." + _HIST,
+    "C05": " Also: several definitions read together (shared dependencies, ports of dependencies, rules inside dependency chains)." + _HIST,
+    "C06": " Also: operation histories over same-named types, integral float inputs, arrays of arrays of composites, colliding union variants, caller-side modification of every list the model hands out or receives." + _HIST,
+    "C07": " Also: decoding histories over same-named types, caller-side modification of accessor lists." + _HIST,
+    "C08": " Also: traversal histories on one object (abandoned, interleaved), collider sequences, services with intrinsics at every single position.",
+    "C09": " Also: multi-edges with mixed spellings, letter-case twins, file twins (legacy extension / port prefix), digit-ambiguous versions." + _HIST,
+    "C10": " Also: parent directories with glob / shell-special names, two versions of one dependency." + _HIST + " A canonical execution that is not reproducible in the same process is a violation.",
+    "C11": " Also: chains of three minor versions split between target and lookup roots with bystander targets, extreme port values." + _HIST,
+    "C12": " Also: real-literal notations, NFC-collapsing characters." + _HIST,
+    "C13": " Also: astronomic magnitudes in every numeric sink x error follow-ups, exotic operands (types, sets of sets, fields of foreign types) under every operator." + _HIST,
+    "C14": " Also: one container nesting several revisions with digit-ambiguous versions." + _HIST,
+    "C15": " Also: working directory above the parent of the root, one-shot iterator arguments, non-ASCII names, the same directory under several roots in one process, a target under several same-named roots, caller-side modification of name_components." + _HIST,
+    "C16": " Now 30 type templates + 4 text templates that evaluate an intrinsic early; divisor sweeps on one object; equality against primitives and literal sets.",
+    "C17": " Now 20 faults, a 9-symbol context alphabet (incl. a statement continuing on the next physical line and FF/VT/LS/PS inside comments), LF/CRLF/CR/mixed, read_files with targets named several times." + _HIST,
+    "C18": " Also: pickles loaded in another interpreter under another hash seed, copies / deep copies of composites with constants (by-name view).",
+    "C19": " Also: error-outcome configurations (dangling versions, case-mismatched references), deprecated dependencies with newer versions, twin roots with duplicated list entries, failed-call histories." + _HIST,
+}
+for _c in CHECKS:
+    _c["text"] += _EXTRA.get(_c["property_id"], "")
